@@ -1,0 +1,50 @@
+//go:build verif
+
+// Contracts for package response, read by /verif/govc (contract-based deductive verification).
+// This file contains comments only; it adds no code to any build.
+
+package response
+
+// ---- C02: NETCONF replies decode to exactly the payload, or are explicitly failed -------------
+
+// blocksOf(j, d, c): j is an in-order concatenation of sub-ranges of d[0:c] (inductive, rules only).
+//@ spec blocksOf(j []byte, d []byte, c int) bool
+//@ axiom #blocks-empty forall d []byte :: {blocksOf("", d, 0)} blocksOf("", d, 0)
+//@ axiom #blocks-append forall j []byte, d []byte, c int, a int, b int :: {blocksOf(j ++ d[a:b], d, b), blocksOf(j, d, c)}
+//@        blocksOf(j, d, c) && c <= a && a <= b && b <= len(d) ==> blocksOf(j ++ d[a:b], d, b)
+//@ axiom #blocks-mono forall j []byte, d []byte, c int, c2 int :: {blocksOf(j, d, c), blocksOf(j, d, c2)}
+//@        blocksOf(j, d, c) && c <= c2 && c2 <= len(d) ==> blocksOf(j, d, c2)
+// partOf(x, d): x is a sub-range of such a concatenation
+//@ spec partOf(x []byte, d []byte) bool
+//@ axiom #part-blocks forall j []byte, d []byte, c int :: {blocksOf(j, d, c)} blocksOf(j, d, c) ==> partOf(j, d)
+//@ axiom #part-slice forall j []byte, d []byte, a int, b int :: {partOf(j[a:b], d)} partOf(j, d) && 0 <= a && a <= b && b <= len(j) ==> partOf(j[a:b], d)
+
+// ghost outputs of the 1.1 decoder (set at its return, read by the contracts of its callers)
+//@ ghost parseErr11 bool
+//@ ghost payload11 []byte
+
+//@ func (*NetconfResponse).record1dot1Chunks [C02]
+//@   modifies r.Result, parseErr11, payload11
+//@   at return set parseErr11 = result != nil
+//@   at return set payload11 = r.Result
+//@   ensures #error-iff (result != nil) <==> parseErr11
+//@   ensures #error-leaves-result result != nil ==> r.Result == old(r.Result)
+//@   ensures #no-marker len(trimSpace(old(r.RawResult))) == 0 || trimSpace(old(r.RawResult))[0] != '#' ==> result != nil
+//@   ensures #result-is-payload result == nil ==> r.Result == payload11
+//@   ensures #provenance result == nil ==> partOf(r.Result, trimSpace(old(r.RawResult)))
+//@   loop 1 invariant 0 <= cursor && cursor <= len(d)
+//@   loop 1 invariant #provenance blocksOf(joined, d, cursor)
+//@   loop 1 invariant d == trimSpace(r.RawResult) && r.Result == old(r.Result)
+//@   loop 1 decreases len(d) - cursor
+//@   loop 2 invariant 0 <= chunkSizeLen && chunkSizeLen <= maxChunkSizeCharLen + 1
+//@   loop 2 invariant len(chunkSizeStr) == 0
+//@   loop 2 decreases maxChunkSizeCharLen + 1 - chunkSizeLen
+
+//@ func (*NetconfResponse).record1dot1 [C02]
+//@   modifies r.Result, r.Failed, parseErr11, payload11
+//@   ensures #failed-on-parse-error parseErr11 ==> r.Failed != nil
+//@   ensures #no-parse-error !parseErr11 ==> r.Failed == old(r.Failed) && r.Result == payload11
+
+//@ func (*NetconfResponse).record1dot0 [C02]
+//@   modifies r.Result
+//@   ensures #exact-1.0 r.Result == trimSpace(trimSuffix(trimSpace(trimPrefix(old(r.RawResult), xmlHeader)), v1Dot0Delim))
